@@ -129,8 +129,32 @@ def gen(d, tier):
     if not two:
         cfg["origin"] = d.int(0, 1)
     n_ops = (3, 8) if tier == "quick" else (3, 14)
-    acts, world = gen_history(d, cfg, sides=(0, 1) if two else (cfg["origin"],), n_ops=n_ops, with_base=True,
-                              world_init=_winit)
+    sides = (0, 1) if two else (cfg["origin"],)
+
+    def fault_then_edit(d, world, acts):
+        """edit a file, let a before-effect fault hit one of the engine's next mutating / transfer calls, let the
+        engine work a little, edit the SAME file again before the retry, settle (what the first attempt left behind --
+        temp files, half-filled entries -- must not leak into the retry)"""
+        s_ = d.choice(sides)
+        files = [c for c in world.allowed(s_, "write")]
+        if not files:
+            return
+        c = d.choice(files)
+        c1 = world.new_content()
+        acts.append(["u", s_, "write", c[1], c1])
+        world.apply(s_, "write", c[1], c1)
+        acts.append(["fault", d.choice(("temp", "disc", "space")), "before", d.int(0, 2), d.choice(("mut", "xfer"))])
+        for _ in range(d.int(2, 6)):
+            acts.append(["step", d.choice(("EL" if s_ == 0 else "ER", "S", "S")), 0.02])
+            world.note_step(acts[-1][1])
+        if world.hazard(s_, "write", c[1], "y") is None:
+            c2 = world.new_content()
+            acts.append(["u", s_, "write", c[1], c2])
+            world.apply(s_, "write", c[1], c2)
+        acts.append(["settle"])
+        world.settle()
+    acts, world = gen_history(d, cfg, sides=sides, n_ops=n_ops, with_base=True,
+                              world_init=_winit, w_extra=1, extra=fault_then_edit)
     acts.append(["settle"])      # the last-but-one settle still runs under faults; only the very last one is fault-free
     # insert fault arms after the base settle
     first = next(i for i, a in enumerate(acts) if a[0] == "settle")
